@@ -281,9 +281,23 @@ pub fn render_module(m: &GModule) -> String {
     if let Some(dt) = &it.deno_types {
       s.push_str(&format!("// @deno-types=\"{}\"\n", dt));
     }
+    // syntactic variants of one semantic form, chosen by a hash of (module, specifier, position): the model
+    // does not distinguish them, the builder must not either
+    let variant = hash64(&(m.url.as_str(), it.text.as_str(), n, "variant")) % 12;
+    let typed_any = m.media.is_typed();
     match it.form {
+      Form::Import if typed_any && it.deno_types.is_none() && variant == 0 => {
+        s.push_str(&format!("import v{} = require(\"{}\");\n", n, it.text))
+      }
+      Form::Import if typed_any && it.deno_types.is_none() && variant == 1 => {
+        s.push_str(&format!("export import v{} = require(\"{}\");\n", n, it.text))
+      }
+      Form::Import if variant == 2 => s.push_str(&format!("import * as v{} from \"{}\";\n", n, it.text)),
+      Form::Import if variant == 3 => s.push_str(&format!("import v{}, {{ w{} as x{} }} from '{}';\n", n, n, n, it.text)),
       Form::Import => s.push_str(&format!("import v{} from \"{}\";\n", n, it.text)),
       Form::SideEffect => s.push_str(&format!("import \"{}\";\n", it.text)),
+      Form::ExportFrom if variant < 3 => s.push_str(&format!("export * as ns{} from \"{}\";\n", n, it.text)),
+      Form::ExportFrom if variant == 3 => s.push_str(&format!("export {{ default as b{} }} from \"{}\";\n", n, it.text)),
       Form::ExportFrom => {
         s.push_str(&format!("export {{ a{} }} from \"{}\";\n", n, it.text))
       }
@@ -298,6 +312,15 @@ pub fn render_module(m: &GModule) -> String {
           _ => s.push_str(&format!("const d{} = await import(\"{}\");\n", n, it.text)),
         }
       }
+      Form::ImportType if it.deno_types.is_none() && variant < 2 => {
+        s.push_str(&format!("type Q{} = import(\"{}\").X{};\n", n, it.text, n))
+      }
+      Form::ImportType if it.deno_types.is_none() && variant == 2 => {
+        s.push_str(&format!("declare let tq{}: typeof import(\"{}\");\n", n, it.text))
+      }
+      Form::ImportType if it.deno_types.is_none() && variant == 3 => {
+        s.push_str(&format!("function ft{}(a: import(\"{}\").P): void {{}}\n", n, it.text))
+      }
       Form::ImportType => {
         s.push_str(&format!("import type {{ T{} }} from \"{}\";\n", n, it.text))
       }
@@ -311,6 +334,10 @@ pub fn render_module(m: &GModule) -> String {
       Form::DynImportJson => s.push_str(&format!(
         "const dj{} = await import(\"{}\", {{ with: {{ type: \"json\" }} }});\n",
         n, it.text
+      )),
+      Form::JsDoc if variant < 4 => s.push_str(&format!(
+        "/** @import {{ X{} }} from \"{}\" */\nlet q{};\n",
+        n, it.text, n
       )),
       Form::JsDoc => s.push_str(&format!(
         "/** @type {{import(\"{}\").X{}}} */\nlet q{};\n",
